@@ -310,7 +310,7 @@ struct End : public IStream {
             if (--pieces <= 0) pieces = 1;
             if (pos < n) {
                 c_frag.add();
-                if (is_stub || frag_mode == 1 || frng.chance(1, 2)) thread_yield();
+                if (is_stub || frag_mode == 1 || frng.chance(2, 3)) thread_yield();
                 else thread_usleep(frng.range(5, 1500));
             }
         }
@@ -419,7 +419,7 @@ struct Slot {
     uint32_t done_calls = 0, tries = 0;
     vh::Rng rng{1};
 };
-constexpr uint64_t STACK = 256 * 1024;
+constexpr uint64_t STACK = 96 * 1024;       // malloc-ed per thread (default allocator): freed stacks are visible to ASan
 constexpr uint64_t MS = 1000;
 
 static bool leader_holds_until(Round* R, uint64_t t) {
@@ -749,7 +749,7 @@ struct PeerB {
             if (pos < to) {
                 c_frag.add();
                 // benign pauses: far below every deadline a call that is answered can have (>= 30 s)
-                if (rng.chance(1, 2)) thread_yield(); else thread_usleep(rng.range(5, 2000));
+                if (rng.chance(2, 3)) thread_yield(); else thread_usleep(rng.range(5, 1500));
             }
         }
         return true;
@@ -765,8 +765,18 @@ struct PeerB {
         if (garbage_body) { std::string g(size, 0); expand(rng.next(), &g[0], size); m += g; }
         emit_fragmented(m, 0, m.size());
     }
+    // benign late answers: a sleep until "deadline + margin" is not enough on a loaded machine (the follower's timeout and this
+    // thread can be resumed in the same batch, in either order), so wait until the caller has really returned
+    bool wait_gone(Rec* rec) {
+        for (int i = 0; i < 10000 && !stop_flag && !closed; ++i) {
+            if (rec->state.load(vh::MO) == 2) return true;
+            thread_usleep(1000);
+        }
+        return rec->state.load(vh::MO) == 2;
+    }
     void process(Job& j) {
         Rec* rec = j.rec;
+        if (j.h.fate == FT_LATE && !wait_gone(rec)) return;
         bool gone = rec->state.load(vh::MO) == 2;
         if (gone) {
             // the caller already returned (timed out, or failed as a leader): normally the adversary stays silent so that one
@@ -809,7 +819,9 @@ struct PeerB {
             // first part before the caller's deadline, the rest after it
             if (j.h.fate == FT_STR_HDR) c_hdr_partial_deadline.add();
             ok = emit_fragmented(msg, 0, j.h.cut);
-            if (ok) { sleep_until(j.h.t2); ok = emit_fragmented(msg, j.h.cut, msg.size()); }
+            if (ok) sleep_until(j.h.t2);
+            if (ok && j.h.fate == FT_STR_HDR && !wait_gone(rec)) { close_now(); return; }
+            if (ok) ok = emit_fragmented(msg, j.h.cut, msg.size());
         } else {
             ok = emit_fragmented(msg, 0, msg.size());
         }
@@ -872,14 +884,17 @@ static void run_round(uint32_t idx, vh::Rng& xr, int mode) {
     auto R = new Round;
     R->idx = idx;
     R->mode = mode;
-    R->peer = (mode == M_STRADDLE || mode == M_EARLY) ? 1 : (int)vh::args().geti("peer", r.chance(1, 3) ? 0 : 1);
+    R->peer = (mode == M_STRADDLE || mode == M_EARLY) ? 1 : (int)vh::args().geti("peer", r.chance(1, 4) ? 0 : 1);
     R->K = (int)vh::args().geti("k", r.pick({2, 3, 4, 6, 8, 12, 16, 24, 32}));
     if (mode == M_STRADDLE && R->K < 3) R->K = 3;
+    // every concurrent request costs the Skeleton's thread pool an 8 MB stack (expensive under ASan): fewer callers there
+    if (R->peer == 0 && R->K > 8 && !vh::args().has("k")) R->K = (int)r.pick({2, 4, 6, 8});
     R->per_wait = r.chance(1, 2);
     R->thread_per_call = r.chance(1, 2);
     R->send_mode = mode == M_EARLY ? 2 : (int)r.pick({0, 0, 1});
     R->p_special = (mode == M_PLAIN || mode == M_EARLY) ? 0 : (int)r.pick({2, 4, 8});
-    uint32_t budget = (uint32_t)vh::args().geti("calls", vh::args().thorough() ? 400 : 200);
+    uint32_t budget = (uint32_t)vh::args().geti("calls", vh::args().thorough() ? 300 : 200);
+    if (R->peer == 0) budget /= 2;
     R->calls_per_caller = std::max<uint32_t>(2, budget / R->K);
     if (mode == M_STRADDLE) R->calls_per_caller = std::min<uint32_t>(R->calls_per_caller, 12);
     R->first_rec = g_nrecs.load(vh::MO);
@@ -1014,9 +1029,9 @@ int main(int argc, char** argv) {
     photon::verif::g_hooks.event = &sink;
     vh::arm_stalls(xr, {photon::verif::P_OOO_COLLECT}, false);
     vh::config("mode", g_mode_name);
-    vh::start_supervisor(on_stuck, 5000);
+    vh::start_supervisor(on_stuck, 15000);      // the machine is shared: tearing down a Skeleton's thread pool under ASan can take seconds
 
-    uint32_t rounds = (uint32_t)vh::args().geti("rounds", vh::args().thorough() ? 40 : 14);
+    uint32_t rounds = (uint32_t)vh::args().geti("rounds", vh::args().thorough() ? 30 : 10);
     uint32_t idx = 0;
     if (early) {
         run_round(idx++, xr, M_PLAIN);
